@@ -82,6 +82,8 @@ class WireMixin:
         for label in REAL_LABELS:
             for (ev, cid, data, dropped) in self.writes.get(label, []):
                 streams.setdefault((label, cid), bytearray()).extend(data)
+        unrep = {e["mid"] for side in getattr(self, "sends", {}) for e in getattr(self, "sends", {}).get(side, [])
+                 if isinstance(e, dict) and e.get("unrepresentable")}
         for (label, cid), data in streams.items():
             frames, err, rest = refframer.split_stream(bytes(data))
             n_frames += len(frames)
@@ -92,6 +94,10 @@ class WireMixin:
                                 f"bytes written by {label} on connection {cid} are not a concatenation of well-formed frames: {what}")
             for fr in frames:
                 d = refframer.fdict(fr)
+                if d.get("11") in unrep:
+                    raise Violation("unrepresentable-transmitted", "C02/unrepresentable-message-transmitted/altered",
+                                    f"{label} transmitted message {d.get('11')} although one of its values (a lone "
+                                    f"surrogate) has no byte representation: what went out is not what was sent: {fr[:160]!r}")
                 if b"<class '" in fr or b"Error'>" in fr:
                     # a Python object's repr instead of a value: the message had a field without a representable
                     # value (e.g. the marker decode() leaves for a repeated tag) and had to be refused
